@@ -32,21 +32,22 @@ type application struct {
 
 func (a *application) start(mode gen.ApplicationMode, options gen.ApplicationOptionsExtra) error {
 	lib.VerifPoint("app.start.cas", a.spec.Name)
+	// (under the same lock as the check in stop(): a stop request must not get in between)
+	a.earlyMu.Lock()
 	if swapped := atomic.CompareAndSwapInt32(&a.state,
 		int32(gen.ApplicationStateLoaded), int32(gen.ApplicationStateRunning)); swapped == false {
+		a.earlyMu.Unlock()
 		if atomic.LoadInt32(&a.state) == int32(gen.ApplicationStateRunning) {
 			return gen.ErrApplicationRunning
 		}
 		return gen.ErrApplicationState
 	}
-
-	// a new run: forget the reason the previous one ended with
-	a.reason = nil
-
-	a.earlyMu.Lock()
 	a.starting = true
 	a.early = make(map[gen.PID]error)
 	a.earlyMu.Unlock()
+
+	// a new run: forget the reason the previous one ended with
+	a.reason = nil
 
 	// build app env
 	appEnv := make(map[gen.Env]any)
@@ -144,9 +145,18 @@ func (a *application) start(mode gen.ApplicationMode, options gen.ApplicationOpt
 
 func (a *application) stop(force bool, timeout time.Duration) error {
 	lib.VerifPoint("app.stop.cas", a.spec.Name)
-	if swapped := atomic.CompareAndSwapInt32(&a.state,
+	a.earlyMu.Lock()
+	if a.starting {
+		// the members are still being started: stopping now would stop some of them
+		// and leave the others running in an application that looks stopped
+		a.earlyMu.Unlock()
+		return gen.ErrApplicationState
+	}
+	swapped := atomic.CompareAndSwapInt32(&a.state,
 		int32(gen.ApplicationStateRunning),
-		int32(gen.ApplicationStateStopping)); swapped == false {
+		int32(gen.ApplicationStateStopping))
+	a.earlyMu.Unlock()
+	if swapped == false {
 		state := atomic.LoadInt32(&a.state)
 		if state == int32(gen.ApplicationStateLoaded) {
 			return nil // already stopped
